@@ -162,7 +162,8 @@ def C06_star_stmt : Prop :=
       first fuel (.dict cls kvs) xp d = (.dict cls kvs, .ok (firstOf (selectF f rs) d))
 
 /-- **full statement (predicates).**  For the record list at any position `p`, `P[k op v]/f` and
-`P/k[text() op v]/../f` return `f` of exactly the records whose `k` passes the comparison. -/
+`P/k[text() op v]/../f` return `f` of exactly the records whose `k` passes the comparison (`get`, item
+access, `first`); the tree is unchanged. -/
 def C06_pred_stmt : Prop :=
   ∀ (cls : Cls) (kvs : List (Str × Val)) (p : Pos) (k f opx op vq v : Str) (lc : Cls) (rs : List Val) (d : Val),
     PlainPos p → p ≠ [] → FieldKey k → PlainKey f → OpSpell opx op → LitSpell vq v → PlainLit v →
@@ -170,7 +171,9 @@ def C06_pred_stmt : Prop :=
     ∃ n, ∀ fuel ≥ n, ∀ xp ∈ [slash ++ renderPos p ++ bracket (k ++ opx ++ vq) ++ slash ++ f,
                              slash ++ renderPos p ++ slash ++ k ++ bracket (sTextFn ++ opx ++ vq) ++ slash ++ ['.', '.'] ++ slash ++ f],
       XPath.get fuel (.dict cls kvs) xp d
-        = (.dict cls kvs, .ok (selected (selectWhere k f (condTest op (.str v)) rs) d))
+        = (.dict cls kvs, .ok (selected (selectWhere k f (condTest op (.str v)) rs) d)) ∧
+      getItem fuel (.dict cls kvs) xp = (.dict cls kvs, selectedItem (selectWhere k f (condTest op (.str v)) rs)) ∧
+      first fuel (.dict cls kvs) xp d = (.dict cls kvs, .ok (firstOf (selectWhere k f (condTest op (.str v)) rs) d))
 
 /-- **full statement (chained selections, two levels).**  `name[k1=v1]/items[k2=v2]/f` returns, for every
 outer record that matches and has a non-empty inner selection, the list of its inner selections.
@@ -297,6 +300,47 @@ theorem C06_star : C06_star_stmt := by
     exact this
   · exact C06_implicit_star_path_partial cls kvs p f lc rs d hp hne hf hget hrs fuel hfuel
 
+/-- **C06 (predicates, any position).**  For the list of dict records at any position `p` of the tree
+(canonical path `P`), `P[k op v]/f` and `P/k[text() op v]/../f` — any operator and literal spelling — return `f`
+of exactly the records that have `k` and whose `k` passes the comparison, in list order, through `get`, item
+access and `first`; the tree is unchanged.  This is `C06_pred_stmt`.  (The `'..'` step splits the `found` text
+of the walk — the canonical path of `P[j]/k` — drops the last piece and resolves `P[j]` again from the root.) -/
+theorem C06_pred : C06_pred_stmt := by
+  intro cls kvs p k f opx op vq v lc rs d hp hne hk hf hop hlit hv hget hrs hg
+  refine ⟨4 * p.length + rs.length + 14, fun fuel hfuel xp hxp => ?_⟩
+  simp only [List.mem_cons, List.not_mem_nil, or_false] at hxp
+  rcases hxp with rfl | rfl
+  · have := sel2_cond_api cls kvs p k f opx op vq v lc rs d hp hne hk hf hop hlit hv hget hrs hg.guard fuel hfuel
+    simp only [selectWhere_eq] at this
+    exact this
+  · have := sel2_textform_api cls kvs p k f opx op vq v lc rs d hp hk hf hop hlit hv hget hrs hg.guard fuel hfuel
+    simp only [selectWhere_eq] at this
+    exact this
+
+/-- **C06 (`=`, `!=`, `~` at any position)** against the independent references: `P[k=v]/f` selects the records
+whose `k` equals `v` (`fieldEq`), `P[k!=v]/f` those that have `k` and differ, `P[k~v]/f` those whose `k` contains
+`v` (`fieldContains`); `get` shown, item access and `first` as in `C06_pred`. -/
+theorem C06_eq_ne_contains (cls : Cls) (kvs : List (Str × Val)) (p : Pos) (k f vq v : Str) (lc : Cls) (rs : List Val) (d : Val)
+    (hp : PlainPos p) (hne : p ≠ []) (hk : FieldKey k) (hf : PlainKey f) (hlit : LitSpell vq v) (hv : PlainLit v)
+    (hget : getAt (.dict cls kvs) p = some (.list lc rs)) (hrs : ∀ r ∈ rs, isDict r = true) (hg : ComparableK k v rs) :
+    ∃ n, ∀ fuel ≥ n,
+      XPath.get fuel (.dict cls kvs) (slash ++ renderPos p ++ bracket (k ++ ['='] ++ vq) ++ slash ++ f) d
+        = (.dict cls kvs, .ok (selected (selectWhere k f (fieldEq v) rs) d)) ∧
+      XPath.get fuel (.dict cls kvs) (slash ++ renderPos p ++ bracket (k ++ ['!', '='] ++ vq) ++ slash ++ f) d
+        = (.dict cls kvs, .ok (selected (selectWhere k f (fun x => !fieldEq v x) rs) d)) ∧
+      XPath.get fuel (.dict cls kvs) (slash ++ renderPos p ++ bracket (k ++ ['~'] ++ vq) ++ slash ++ f) d
+        = (.dict cls kvs, .ok (selected (selectWhere k f (fieldContains v) rs) d)) := by
+  obtain ⟨n1, h1⟩ := C06_pred cls kvs p k f _ _ vq v lc rs d hp hne hk hf .eq1 hlit hv hget hrs hg
+  obtain ⟨n2, h2⟩ := C06_pred cls kvs p k f _ _ vq v lc rs d hp hne hk hf .ne hlit hv hget hrs hg
+  obtain ⟨n3, h3⟩ := C06_pred cls kvs p k f _ _ vq v lc rs d hp hne hk hf .in1 hlit hv hget hrs hg
+  refine ⟨n1 + n2 + n3, fun fuel hfuel => ⟨?_, ?_, ?_⟩⟩
+  · have := (h1 fuel (by omega) _ (List.mem_cons_self ..)).1
+    rwa [selectWhere_congr k f _ (fieldEq v) rs (fun c kvs' kv hm hlk => condTest_eq v kv (hg.guard c kvs' kv hm hlk))] at this
+  · have := (h2 fuel (by omega) _ (List.mem_cons_self ..)).1
+    rwa [selectWhere_congr k f _ (fun x => !fieldEq v x) rs (fun c kvs' kv hm hlk => condTest_ne v kv (hg.guard c kvs' kv hm hlk))] at this
+  · have := (h3 fuel (by omega) _ (List.mem_cons_self ..)).1
+    rwa [selectWhere_congr k f _ (fieldContains v) rs (fun c kvs' kv _ _ => condTest_contains v kv)] at this
+
 /-- the general form of the three predicate theorems: any operator spelling, with `first` -/
 theorem C06_pred_partial (cls : Cls) (kvs : List (Str × Val)) (name k f opx op vq v : Str) (lc : Cls) (rs : List Val)
     (d : Val) (hname : PlainKey name) (hk : FieldKey k) (hf : PlainKey f) (hop : OpSpell opx op) (hlit : LitSpell vq v)
@@ -420,6 +464,17 @@ example : ∃ n, ∀ fuel ≥ n, (XPath.get fuel deep ['/', '/', 'a', '[', '1', 
   obtain ⟨n, h⟩ := C06_star .n0 [(['a'], .list .plain [.str ['p'], .list .plain recsList])] [.key ['a'], .idx 1] ['f'] .plain recsList .none
     ⟨⟨by decide, by decide, by decide⟩, trivial⟩ (by simp) plainKey_f rfl (by decide)
   exact ⟨n, fun fuel hf => (h fuel hf _ (List.mem_cons_self ..)).1⟩
+
+/-- `C06_pred` on the same tree: `//a[1][k='1']/f` (a predicate on a list that is itself a list element) -/
+example : ∃ n, ∀ fuel ≥ n, (XPath.get fuel deep ['/', '/', 'a', '[', '1', ']', '[', 'k', '=', '\'', '1', '\'', ']', '/', 'f'] .none)
+    = (deep, .ok (.list .n0 [.str ['x'], .str ['y']])) := by
+  obtain ⟨n, h⟩ := C06_pred .n0 [(['a'], .list .plain [.str ['p'], .list .plain recsList])] [.key ['a'], .idx 1] ['k'] ['f']
+    ['='] _ _ ['1'] .plain recsList .none ⟨⟨by decide, by decide, by decide⟩, trivial⟩ (by simp) fieldKey_k plainKey_f .eq1
+    (.sq ['1']) plainLit_1 rfl (by decide) (by decide)
+  refine ⟨n, fun fuel hf => ?_⟩
+  have := (h fuel hf _ (List.mem_cons_self ..)).1
+  rw [show selectWhere ['k'] ['f'] (condTest ['=', '='] (.str ['1'])) recsList = [.str ['x'], .str ['y']] by decide] at this
+  exact this
 
 /-! the selecting forms on a concrete record list, evaluated by the model (all five forms) -/
 example : (XPath.get 60 recs ['r', '[', '*', ']', '/', 'f'] .none).2 = .ok (.list .n0 [.str ['x'], .str ['y']]) := by decide
